@@ -30,7 +30,7 @@ class ParseSoup(Stream):
             "s .sequential_format = abc { }",   # formerly F17 (repaired): TypeError escaped
             "s .sequential_format = Auto { }",
             "s .call = foo { }",                # F18 (open): ValueError escapes
-            "a=1\n.expert_level = inf",         # F6-attr (open): OverflowError escapes
+            "a=1\n.expert_level = inf",         # formerly F6-attr (repaired): OverflowError escaped
             "a=1\n.input_size = nan",
         ]
 
@@ -143,8 +143,6 @@ def match_finding(finding, failure):
     what = failure.get("what", "")
     if fid == "F18":
         return ".call" in case and any(k in what for k in ("ValueError", "ImportError", "AttributeError", "TypeError", "ModuleNotFoundError"))
-    if fid == "F6-attr":
-        return (".expert_level" in case or ".input_size" in case) and any(k in what for k in ("OverflowError", "ValueError"))
     return False
 
 
